@@ -84,7 +84,16 @@ class Workspace:
         shutil.rmtree(self.root, ignore_errors=True)
 
 
-def session(ws: Workspace, messages: list, argv=(), init: bool = True, keep_threads: bool = False):
+class SessionTimeout(BaseException):
+    """Raised by the alarm; a BaseException so that the server's own `except Exception` cannot swallow it."""
+
+
+def _alarm(signum, frame):
+    raise SessionTimeout()
+
+
+def session(ws: Workspace, messages: list, argv=(), init: bool = True, keep_threads: bool = False,
+            timeout: int = 60):
     """Run LangServer.run() over the given messages (initialize prepended); returns (server, outputs)."""
     from fortls.jsonrpc import path_to_uri
     msgs = []
@@ -96,5 +105,12 @@ def session(ws: Workspace, messages: list, argv=(), init: bool = True, keep_thre
     srv, rw = make_server(argv, data)
     if not keep_threads:
         srv.nthreads = 1
-    srv.run()
+    import signal
+    old = signal.signal(signal.SIGALRM, _alarm)
+    signal.alarm(timeout)
+    try:
+        srv.run()
+    finally:
+        signal.alarm(0)
+        signal.signal(signal.SIGALRM, old)
     return srv, parse_out(rw.out)
